@@ -32,9 +32,14 @@ def replay_gridded(args):
     ny, nx = 7, 9
     data = np.array([epsf(i, j, ny, nx) for (i, j) in nodes])
     xy = [(gx[i - 1], gy[j - 1]) for (i, j) in nodes]
-    sig = {'layout': c['layout'], 'shuffled': bool(idx % 2), 'oversampling': str(ov)}
+    sig = {'layout': c['layout'], 'shuffled': bool(idx % 2), 'oversampling': str(ov), 'decoy_instance_first': idx % 3 == 1}
     out = []
     try:
+        if idx % 3 == 1:
+            # another model instance on the same grid with other ePSFs, evaluated at the same place first: instances are independent
+            decoy = GriddedPSFModel(NDData(1000.0 - data[::-1], meta={'grid_xypos': xy, 'oversampling': ov}))
+            decoy.x_0, decoy.y_0 = c['x0'] / 2.0, c['y0'] / 2.0
+            decoy(np.array([[c['x0'] / 2.0]]), np.array([[c['y0'] / 2.0]]))
         model = GriddedPSFModel(NDData(data, meta={'grid_xypos': xy, 'oversampling': ov}))
         # earlier evaluations at other positions must not matter (cache keyed by grid position)
         if idx % 4 == 0:
